@@ -116,6 +116,13 @@ structure St where
   /-- raft: entries applied so far, and the index covered by the last snapshot -/
   log : List Entry := []
   snap : Nat := 0
+  /-- ghost (never read by the pipeline, not printed): the highest HWM ever announced by
+  another node; the index of the last entry handed to the streamer since the service
+  started; the highest index handed to it since the log began or that is known to be
+  covered by the FIFO/snapshot after a restart -/
+  maxIn : Nat := 0
+  lastFed : Nat := 0
+  front : Nat := 0
 deriving Repr
 
 def hiIdx (b : Batch) : Nat := b.foldl (fun m g => max m g.idx) 0
@@ -168,7 +175,7 @@ def offerHwm (s : St) (n : Nat) : St :=
   else followerHwm s n
 
 def applyEntry (s : St) (e : Entry) : St :=
-  (streamEntryWith s.keepIdx e).foldl feedGroup s
+  (streamEntryWith s.keepIdx e).foldl feedGroup { s with lastFed := e.idx, front := max s.front e.idx }
 
 inductive Op where
   | entry (e : Entry)            -- a log entry is applied (also appended to the log)
@@ -198,7 +205,7 @@ def stepCore (s : St) : Op → St
       let s2 := s.hwmChan.foldl followerHwm s1
       { s2 with hwmChan := [] }
   | .endpoint up => { s with up := up }
-  | .hwm n => offerHwm s n
+  | .hwm n => offerHwm { s with maxIn := max s.maxIn n } n
   | .tick =>
     if !s.leader ∨ s.hwm = 0 then s
     else
@@ -210,7 +217,8 @@ def stepCore (s : St) : Op → St
     let q := reopen s.fifo
     let fk := firstKey q
     let s1 : St := { s with batcher := [], fifo := q, leader := false, held := none,
-                            hwm := fk - 1, leaderPersisted := 0, followerPersisted := 0, hwmChan := [] }
+                            hwm := fk - 1, leaderPersisted := 0, followerPersisted := 0, hwmChan := [],
+                            lastFed := 0, front := max s.snap q.highest }
     (s.log.filter (fun e => decide (s.snap < e.idx))).foldl applyEntry s1
 
 def stepOp (s : St) (op : Op) : St := pumpAll (stepCore s op)
